@@ -13,6 +13,13 @@ Definition rows_short (v : value) : Prop :=
   | _ => True
   end.
 
+Lemma classic_blob : forall T, T = TBlob \/ T <> TBlob.
+Proof. destruct T; auto; right; discriminate. Qed.
+
+(* ... which only matters for the reference-list types *)
+Definition rows_ok (T : ctype) (v : value) : Prop :=
+  match T with TRefList _ | TAttachments => rows_short v | _ => True end.
+
 Section Conversion.
 Variable orc : oracles.
 
@@ -104,7 +111,7 @@ Definition all_plain_str (l : list value) : Prop := Forall (fun x => exists s, x
 
 Lemma strs_of_shape : forall items w, strs_of orc items = Ok w -> exists l, w = PTuple l /\ all_plain_str l.
 Proof.
-  intros items w H. unfold strs_of in H. apply bind_ok in H as [l [Hl H]]. inversion H; subst.
+  intros items w H. unfold strs_of in H. apply bind_ok in H as [l [Hl H]]. inversion H; subst. clear H.
   exists l; split; [reflexivity|].
   apply map_result_ok in Hl. induction Hl as [|x y xs ys Hxy _ IH]; constructor; auto.
   apply bind_ok in Hxy as [s [_ Hs]]. inversion Hs; eauto.
@@ -167,19 +174,6 @@ Proof.
   rewrite forallb_forall in H. auto.
 Qed.
 
-(* the value after the str pre-processing of ReferenceList.do_convert *)
-Definition reflist_pre (v0 : value) : value :=
-  match v0 with
-  | PStr _ s =>
-      if starts_with (Str "[") s then
-        match o_json_loads orc s with
-        | Some (PList k l) => if forallb is_pos_int l then PList k l else v0
-        | _ => v0
-        end
-      else match reclist_from_repr orc s with Ok rl => rl | Raise _ => v0 end
-  | _ => v0
-  end.
-
 Lemma reclist_from_repr_ints : forall s w, reclist_from_repr orc s = Ok w ->
   exists l, w = PList (LRecordList 0) l /\ Forall (fun x => exists z, x = PInt false z) l.
 Proof.
@@ -193,9 +187,9 @@ Proof.
 Qed.
 
 (* record sets inside the pre-processed value are those of the original value (strings contain none) *)
-Lemma reflist_pre_rows : forall v0, rows_short v0 -> rows_short (reflist_pre v0).
+Lemma reflist_pre_rows : forall v0, rows_short v0 -> rows_short (reflist_pre orc v0).
 Proof.
-  intros v0 H. destruct v0; cbn; auto.
+  intros v0 H. destruct v0; cbn [reflist_pre]; auto.
   destruct (starts_with _ _).
   - destruct (o_json_loads orc s) as [[]|]; cbn; auto.
     destruct (forallb is_pos_int l) eqn:E; cbn; auto.
@@ -208,8 +202,8 @@ Qed.
 Lemma reflist_do_convert_shape : forall t v w, rows_short v -> reflist_do_convert orc t v = Ok w ->
   w = PNone \/ (exists i l, w = PList (LRecordList i) l) \/ (exists l, w = PList LPlain l /\ all_short_ints l).
 Proof.
-  intros t v0 w Hrows H. unfold reflist_do_convert in H. fold (reflist_pre v0) in H.
-  pose proof (reflist_pre_rows v0 Hrows) as Hr. set (v := reflist_pre v0) in *. clearbody v.
+  intros t v0 w Hrows H. unfold reflist_do_convert in H. cbv zeta in H.
+  pose proof (reflist_pre_rows v0 Hrows) as Hr. set (v := reflist_pre orc v0) in *. clearbody v.
   assert (Hgen : forall w, bind (py_iter orc v) (fun items => bind (map_result (id_do_convert orc) items)
                               (fun l => Ok (PList LPlain l))) = Ok w ->
                  exists l, w = PList LPlain l /\ all_short_ints l).
@@ -233,7 +227,7 @@ Lemma all_plain_str_forallb : forall l, all_plain_str l ->
   forallb (fun x => match x with PStr _ _ => true | _ => false end) l = true.
 Proof. intros l H; induction H as [|x t [s ->] _ IH]; cbn; auto. Qed.
 
-Lemma do_convert_ok_type : forall T v w, T <> TBlob -> rows_short v -> is_error v = false ->
+Lemma do_convert_ok_type : forall T v w, T <> TBlob -> rows_ok T v -> is_error v = false ->
   do_convert orc T v = Ok w -> (is_right_type T w = true \/ is_text w = true) /\ is_error w = false.
 Proof.
   intros T v w HT Hrows Herr H. destruct T; cbn [do_convert] in H; try contradiction.
@@ -251,9 +245,9 @@ Proof.
   - apply numeric_do_convert_shape in H as [->|[f ->]]; cbn; auto.
   - apply id_do_convert_shape in H as [n [-> Hn]]; cbn; auto.
   - apply id_do_convert_shape in H as [n [-> Hn]]; cbn; auto.
-  - apply reflist_do_convert_shape in H as [->|[[i [l ->]]|[l [-> Hl]]]]; cbn; auto.
+  - apply reflist_do_convert_shape in H as [->|[[i [l ->]]|[l [-> Hl]]]]; try exact Hrows; cbn; auto.
     rewrite (all_short_ints_forallb l Hl); auto.
-  - apply reflist_do_convert_shape in H as [->|[[i [l ->]]|[l [-> Hl]]]]; cbn; auto.
+  - apply reflist_do_convert_shape in H as [->|[[i [l ->]]|[l [-> Hl]]]]; try exact Hrows; cbn; auto.
     rewrite (all_short_ints_forallb l Hl); auto.
 Qed.
 
@@ -263,7 +257,7 @@ Definition total_at (T : ctype) (v : value) : Prop :=
   (is_error v = true /\ w = v) \/
   (is_error v = false /\ is_error w = false /\ (is_right_type T w = true \/ is_text w = true)).
 
-Lemma convert_total : forall T v, T <> TBlob -> rows_short v -> total_at T v.
+Lemma convert_total : forall T v, T <> TBlob -> rows_ok T v -> total_at T v.
 Proof.
   intros T v HT Hrows. unfold total_at, convert.
   destruct (is_error v) eqn:Herr; [left; auto|right; split; [reflexivity|]].
@@ -271,5 +265,156 @@ Proof.
   - destruct (do_convert_ok_type T v w HT Hrows Herr E) as [H1 H2]. auto.
   - destruct (py_str orc v); cbn; auto.
 Qed.
+
+(* ------------------------------------------------------------------------------------------- *)
+(* idempotence *)
+
+(* the text produced by the `except` path of convert, when it is taken *)
+Definition fallback_text (T : ctype) (v : value) : option str :=
+  if is_error v then None else
+  match do_convert orc T v with
+  | Ok _ => None
+  | Raise _ => Some (match py_str orc v with Some s => s | None => safe_repr orc v end)
+  end.
+
+(* results that a second conversion does not keep (see the refutations in Props/C22.v) *)
+Definition degenerate (T : ctype) (w : value) : Prop :=
+  match T, w with
+  | TChoiceList, PTuple [] => True
+  | (TRefList _ | TAttachments), PList (LRecordList _) _ => True
+  | (TRefList _ | TAttachments), PList LPlain [] => True
+  | _, _ => False
+  end.
+
+Lemma is_int_short_bound : forall n, is_int_short n = true -> Z.abs n < 2 ^ 53.
+Proof.
+  intros n H. unfold is_int_short in H. apply andb_true_iff in H as [H1 H2].
+  apply Z.leb_le in H1. apply Z.ltb_lt in H2.
+  assert (2 ^ 31 < 2 ^ 53) by (apply Z.pow_lt_mono_r; lia). lia.
+Qed.
+
+Lemma int_again : forall n, is_int_short n = true -> int_do_convert orc (PInt false n) = Ok (PInt false n).
+Proof.
+  intros n Hn. unfold int_do_convert. cbn [is_empty_or_none py_float].
+  destruct (f_of_Z_trunc n (is_int_short_bound n Hn)) as [f [Hf [Ht _]]].
+  rewrite Hf. cbn [bind]. unfold py_int_of_float. rewrite Ht. cbn [bind]. rewrite Hn. reflexivity.
+Qed.
+
+Lemma id_again : forall n, is_int_short n = true -> id_do_convert orc (PInt false n) = Ok (PInt false n).
+Proof.
+  intros n Hn. unfold id_do_convert. cbn [py_truthy].
+  destruct (Z.eqb_spec n 0) as [->|Hnz]; cbn [negb]; [reflexivity|]. rewrite Hn. reflexivity.
+Qed.
+
+Lemma strs_again : forall l, all_plain_str l -> strs_of orc l = Ok (PTuple l).
+Proof.
+  intros l H. unfold strs_of. rewrite map_result_id; [reflexivity|].
+  unfold all_plain_str in H. rewrite Forall_forall in *. intros x Hx. destruct (H x Hx) as [s ->]. reflexivity.
+Qed.
+
+Lemma ids_again : forall l, all_short_ints l -> map_result (id_do_convert orc) l = Ok l.
+Proof.
+  intros l H. apply map_result_id. unfold all_short_ints in H. rewrite Forall_forall in *.
+  intros x Hx. destruct (H x Hx) as [n [-> Hn]]. apply id_again; exact Hn.
+Qed.
+
+Lemma reflist_again : forall t x l, all_short_ints (x :: l) ->
+  reflist_do_convert orc t (PList LPlain (x :: l)) = Ok (PList LPlain (x :: l)).
+Proof.
+  intros t x l H. unfold reflist_do_convert. cbn [reflist_pre py_truthy py_iter bind].
+  pose proof H as H0. inversion H0 as [|? ? [n [-> Hn]] _]; subst. cbn [forallb is_recordset_of andb].
+  rewrite (ids_again _ H). reflexivity.
+Qed.
+
+(* a successful conversion is a fixed point, unless the result is degenerate *)
+Lemma do_convert_again : forall T v w, rows_ok T v -> is_error v = false ->
+  do_convert orc T v = Ok w -> ~ degenerate T w -> do_convert orc T w = Ok w.
+Proof.
+  intros T v w Hrows Herr H Hdeg. destruct T; cbn [do_convert] in *.
+  - apply text_do_convert_shape in H as [->|[s ->]]; reflexivity.
+  - reflexivity.
+  - destruct v; inversion H; subst; try reflexivity.
+  - apply bool_do_convert_shape in H as [[|] ->]; reflexivity.
+  - apply int_do_convert_shape in H as [->|[n [-> Hn]]]; [reflexivity|apply int_again; exact Hn].
+  - apply numeric_do_convert_shape in H as [->|[f ->]]; reflexivity.
+  - apply date_do_convert_shape in H as [->|[f ->]]; reflexivity.
+  - apply datetime_do_convert_shape in H as [->|[f ->]]; reflexivity.
+  - apply text_do_convert_shape in H as [->|[s ->]]; reflexivity.
+  - pose proof H as H'. apply choicelist_do_convert_shape in H as [->|[[l [-> Hl]]|[-> Ht]]];
+      [reflexivity| |exact H'].
+    destruct l as [|x l]; [exfalso; apply Hdeg; exact I|].
+    unfold choicelist_do_convert. cbn [py_truthy py_iter bind]. apply strs_again; exact Hl.
+  - apply numeric_do_convert_shape in H as [->|[f ->]]; reflexivity.
+  - apply numeric_do_convert_shape in H as [->|[f ->]]; reflexivity.
+  - apply id_do_convert_shape in H as [n [-> Hn]]. apply id_again; exact Hn.
+  - apply id_do_convert_shape in H as [n [-> Hn]]. apply id_again; exact Hn.
+  - apply reflist_do_convert_shape in H as [->|[[i [l ->]]|[l [-> Hl]]]]; try exact Hrows;
+      [reflexivity|exfalso; apply Hdeg; exact I|].
+    destruct l as [|x l]; [exfalso; apply Hdeg; exact I|]. apply reflist_again; exact Hl.
+  - apply reflist_do_convert_shape in H as [->|[[i [l ->]]|[l [-> Hl]]]]; try exact Hrows;
+      [reflexivity|exfalso; apply Hdeg; exact I|].
+    destruct l as [|x l]; [exfalso; apply Hdeg; exact I|]. apply reflist_again; exact Hl.
+Qed.
+
+(* whether a str is an instance of a subclass does not decide whether its conversion fails *)
+Lemma do_convert_str_sub : forall T b s e,
+  do_convert orc T (PStr b s) = Raise e -> do_convert orc T (PStr false s) = Raise e.
+Proof.
+  intros T b s e H. destruct b; [|exact H].
+  destruct T; cbn [do_convert] in *; try exact H; try discriminate.
+  - (* choicelist *)
+    unfold choicelist_do_convert in *. cbn [py_truthy] in *.
+    destruct s; [discriminate|].
+    destruct (starts_with _ _); [|discriminate].
+    destruct (o_json_loads orc _); [|discriminate].
+    destruct (bind _ _); discriminate.
+  - (* reflist *)
+    unfold reflist_do_convert in *. cbn [reflist_pre] in *.
+    destruct (starts_with _ _).
+    + destruct (o_json_loads orc s) as [[]|]; try exact H.
+      destruct (forallb is_pos_int l); exact H.
+    + destruct (reclist_from_repr orc s); exact H.
+  - unfold reflist_do_convert in *. cbn [reflist_pre] in *.
+    destruct (starts_with _ _).
+    + destruct (o_json_loads orc s) as [[]|]; try exact H.
+      destruct (forallb is_pos_int l); exact H.
+    + destruct (reclist_from_repr orc s); exact H.
+Qed.
+
+Lemma convert_idem : forall T v, rows_ok T v ->
+  (forall s, is_text v = false -> fallback_text T v = Some s -> convert orc T (PStr false s) = PStr false s) ->
+  ~ degenerate T (convert orc T v) ->
+  convert orc T (convert orc T v) = convert orc T v.
+Proof.
+  intros T v Hrows Hfb Hdeg. unfold fallback_text in Hfb. unfold convert in Hdeg |- * at 2 3.
+  destruct (is_error v) eqn:Herr.
+  { unfold convert. rewrite Herr. reflexivity. }
+  destruct (do_convert orc T v) as [w|e] eqn:E.
+  - assert (Hw : is_error w = false).
+    { destruct (classic_blob T) as [->|HT].
+      - cbn in E. inversion E; subst; exact Herr.
+      - apply (do_convert_ok_type T v w HT Hrows Herr E). }
+    unfold convert. rewrite Hw. rewrite (do_convert_again T v w Hrows Herr E Hdeg). reflexivity.
+  - destruct (is_text v) eqn:Htext.
+    + destruct v; try discriminate. cbn [py_str] in *.
+      apply do_convert_str_sub in E. unfold convert. cbn [is_error py_str]. rewrite E. reflexivity.
+    + destruct (py_str orc v); apply Hfb; reflexivity.
+Qed.
+
+(* Text, Choice, Any and Blob never leave a text that converts differently: idempotent without conditions *)
+Lemma convert_idem_textlike : forall T v, T = TText \/ T = TChoice \/ T = TAny \/ T = TBlob ->
+  convert orc T (convert orc T v) = convert orc T v.
+Proof.
+  intros T v HT. apply convert_idem.
+  - destruct HT as [-> | [-> | [-> | -> ]]]; exact I.
+  - intros s _ _. destruct HT as [-> | [-> | [-> | -> ]]]; reflexivity.
+  - destruct HT as [-> | [-> | [-> | -> ]]]; intro Hd; cbn in Hd; exact Hd.
+Qed.
+
+Lemma default_right_type : forall T, is_right_type T (default_value T) = true.
+Proof. destruct T; reflexivity. Qed.
+
+Lemma default_fixed : forall T, convert orc T (default_value T) = default_value T.
+Proof. destruct T; reflexivity. Qed.
 
 End Conversion.
